@@ -187,6 +187,10 @@ def splitBySep : Cell F → List Key
 def multicatIndex (cats : List Key) : List (Key × Int) :=
   (cats.zipIdx.map fun (k, i) => (k, (i : Int))) ++ [(missingTok, -1)]
 
+/-- the indices the mapper keeps for one cell: every token of the cell's set that the lookup index knows -/
+def tokenIndices (cats : List Key) (c : Cell F) : List Int :=
+  (splitBySep c).filterMap (Pd.lookup (multicatIndex cats))
+
 /-- lines 171-193 of mapper.py after the relabelling: explode / merge / dropna / per-label counts /
     reindex / cumsum.  `ser` carries whatever labels it has at this point. -/
 def multicatPipeline [DecidableEq L] (cats : List Key) (ser : Pd.Series L (Cell F)) : MNT (Val F) :=
